@@ -69,13 +69,28 @@ static void vk_destroy_value(void *p) {
     g_dv_last = p;
 }
 
-/* allocator handed to the table: libc malloc/calloc/free behind the real aws_mem_calloc / aws_mem_release
- * (source/allocator.c is linked into the units that allocate) */
-size_t g_release_calls;
+/* storage with the layout of `struct hash_table_state` followed by N slots, allocated as ONE typed heap object (a
+ * byte-array object of the same size turns every slot access into a byte_extract and multiplies the formula size) */
+struct ht_store {
+    struct hash_table_state st;
+    struct hash_table_entry sl[HT_NS];
+};
+struct ht_store2 {
+    struct hash_table_state st;
+    struct hash_table_entry sl[2 * HT_NS];
+};
+#ifndef HT_ALLOC_SLOTS
+#    define HT_ALLOC_SLOTS (2 * HT_NS) /* the only allocation a step may request: the doubled table */
+#endif
+
+/* allocator handed to the table: libc calloc/free behind the real aws_mem_calloc / aws_mem_release (source/allocator.c
+ * is linked into the units that resize or clean up).  The request must be exactly header + HT_ALLOC_SLOTS slots. */
+size_t g_release_calls, g_alloc_calls;
 const void *g_release_last;
 static void *vk_acquire(struct aws_allocator *a, size_t n) {
-    (void)a;
-    return malloc(n);
+    (void)a; (void)n;
+    __CPROVER_assert(0, "mem_acquire is not used (mem_calloc is provided)");
+    return NULL;
 }
 static void vk_release(struct aws_allocator *a, void *p) {
     (void)a;
@@ -85,7 +100,14 @@ static void vk_release(struct aws_allocator *a, void *p) {
 }
 static void *vk_calloc(struct aws_allocator *a, size_t n, size_t m) {
     (void)a;
-    return calloc(n, m);
+    g_alloc_calls++;
+    __CPROVER_assert(n == 1 && m == sizeof(struct hash_table_state) + HT_ALLOC_SLOTS * sizeof(struct hash_table_entry),
+                     "allocation request is exactly header + slots of the new size");
+#if HT_ALLOC_SLOTS == 2 * HT_NS
+    return calloc(1, sizeof(struct ht_store2));
+#else
+    return calloc(1, sizeof(struct ht_store));
+#endif
 }
 struct aws_allocator vk_alloc;
 
@@ -113,12 +135,12 @@ static void ht_model_init(void) {
     g_dk_calls = g_dk_hits = g_dv_calls = g_dv_hits = 0;
     g_dk_watch = g_dv_watch = &vk_alloc; /* a pointer that is never a key or value: nothing watched */
     g_dk_last = g_dv_last = NULL;
-    g_release_calls = 0;
+    g_release_calls = g_alloc_calls = 0;
     g_release_last = NULL;
     vk_alloc.mem_acquire = vk_acquire;
     vk_alloc.mem_release = vk_release;
     vk_alloc.mem_realloc = NULL;
-    vk_alloc.mem_calloc = nondet_bool() ? vk_calloc : NULL;
+    vk_alloc.mem_calloc = vk_calloc;
     vk_alloc.impl = NULL;
 }
 
@@ -204,6 +226,17 @@ static bool sp_view_eq(struct ht_view a, struct ht_view b) {
     return a.present == b.present && (!a.present || (a.key == b.key && a.value == b.value));
 }
 
+/* the entry (same code, same key pointer, same value pointer) is stored in some slot.  Together with ht_inv (stored
+ * keys pairwise unequal, entry_count == #occupied) "count changed by exactly d" + "every entry that must survive is
+ * still held" pins the whole key->value view: there is no room for a lost, duplicated or invented pair. */
+static bool sp_holds(const struct hash_table_state *s, size_t ns, struct hash_table_entry e) {
+    for (size_t i = 0; i < ns; i++)
+        if (s->slots[i].hash_code == e.hash_code && s->slots[i].element.key == e.element.key &&
+            s->slots[i].element.value == e.element.value)
+            return true;
+    return false;
+}
+
 /* ------------------------------------------------------------------ snapshots ("nothing else changed") */
 struct ht_snap {
     struct hash_table_state hdr;
@@ -230,12 +263,6 @@ static bool ht_same(const struct hash_table_state *s, size_t ns, const struct ht
 }
 
 /* ------------------------------------------------------------------ an arbitrary table that satisfies ht_inv */
-/* storage with the layout of `struct hash_table_state` followed by HT_NS slots; allocated as ONE typed heap object
- * (a byte-array object of the same size makes every slot access a byte_extract and triples the formula) */
-struct ht_store {
-    struct hash_table_state st;
-    struct hash_table_entry sl[HT_NS];
-};
 static struct hash_table_state *ht_any_state(size_t ns) {
     struct hash_table_state *s = (struct hash_table_state *)malloc(sizeof(struct ht_store));
     __CPROVER_assume(s != NULL);
@@ -247,7 +274,7 @@ static struct hash_table_state *ht_any_state(size_t ns) {
     s->size = ns;
     s->mask = ns - 1;
     s->max_load = nondet_size_t();
-    s->entry_count = nondet_size_t();
+    s->entry_count = 0;
     s->max_load_factor = 0.95;
     for (size_t i = 0; i < ns; i++) {
         /* an occupied slot stores the code of its key (clause of ht_inv, established by construction: cheaper for
@@ -255,6 +282,7 @@ static struct hash_table_state *ht_any_state(size_t ns) {
         s->slots[i].element.key = ht_any_key();
         s->slots[i].element.value = ht_any_value();
         s->slots[i].hash_code = nondet_bool() ? sp_hash(s->slots[i].element.key) : 0;
+        if (s->slots[i].hash_code) s->entry_count++; /* entry_count == #occupied, by construction as well */
     }
     __CPROVER_assume(ht_inv(s, ns));
     return s;
